@@ -21,7 +21,8 @@ RULE = (
     "fastavro code parks a thread at a statement start and releases the one the schedule names. "
     "Per ordered pair (A,B): ALL one-preemption schedules (A stopped before its p-th line event, "
     "for every p; B runs to completion; A finishes) - exhaustive within that bound; plus random "
-    "schedules with 2-3 preemptions between 2 threads (thorough: also 3 threads). Oracle: every "
+    "schedules with 2-3 preemptions between 2 threads (thorough: also 3 threads); plus a free-running "
+    "stress phase (2-8 real threads, switch interval 1 us, 3 s per shard quick / 60 s thorough). Oracle: every "
     "thread's observation (value / bytes / exception class) equals the sequential observation. "
     "distinct = hash(operation pair, schedule as thread/segment sequence); non-trivial = >=1 preemption."
 )
@@ -34,7 +35,7 @@ TIME_LIMIT = {"quick": 35, "thorough": 700}
 PAIRS = {"quick": 2, "thorough": 40}  # ordered pairs per shard (on top of the fixed decimal pairs)
 REACH = {
     "quick": {"schedules_executed": 5000, "one_preemption_schedules": 4000, "multi_preemption_schedules": 300,
-              "pairs_explored": 20, "decimal_pairs": 4},
+              "pairs_explored": 20, "decimal_pairs": 4, "stress_ops_compared": 3000},
     "thorough": {"schedules_executed": 100000},
 }
 
@@ -224,6 +225,55 @@ def run_shard(spec):
             if not same(r, seq[x]):
                 sh.violation("concurrent-result-differs", "replayed: %s gives %s, sequentially %s" % (x, printable(r, 200), printable(seq[x], 200)), info)
         return sh.result()
+    # ---- free-running stress: real preemption at bytecode granularity (switch interval 1 us),
+    # no scheduler; complements the statement-level schedules below
+    import sys
+    import threading
+    import time as _time
+
+    budget = 3.0 if tier == "quick" else 60.0
+    old_iv = sys.getswitchinterval()
+    sys.monitoring.set_events(sched.TOOL, 0)
+    sys.setswitchinterval(1e-6)
+    try:
+        t_end = _time.time() + budget
+        rounds = 0
+        while _time.time() < t_end and not sh.violations:
+            picks = [rng.choice(names) for _ in range(rng.choice([2, 4, 8]))]
+            outs = [None] * len(picks)
+            gate = threading.Barrier(len(picks))
+
+            def body(i, name):
+                got = []
+                gate.wait()
+                for _k in range(6):
+                    try:
+                        got.append(("ok", cat[name]()))
+                    except Exception as e:  # noqa: observation of a failing operation is its exception class
+                        got.append(("exc", type(e).__name__))
+                outs[i] = got
+
+            ths = [threading.Thread(target=body, args=(i, n), daemon=True) for i, n in enumerate(picks)]
+            for t in ths:
+                t.start()
+            for t in ths:
+                t.join(60)
+            if any(t.is_alive() for t in ths):
+                sh.count("stress_rounds_hung_inconclusive")
+                break
+            rounds += 1
+            for n, got in zip(picks, outs):
+                for r in got or []:
+                    sh.count("stress_ops_compared")
+                    if not same(r, seq[n]):
+                        sh.violation("concurrent-result-differs",
+                                     "free-running threads %s: %s returned %s, run alone it returns %s" % (picks, n, printable(r, 200), printable(seq[n], 200)),
+                                     {"stress": picks})
+                        break
+        sh.count("stress_rounds", rounds)
+    finally:
+        sys.setswitchinterval(old_iv)
+        sys.monitoring.set_events(sched.TOOL, sys.monitoring.events.LINE)
     fixed_pairs = [("sread_dec30", "sread_dec2"), ("sread_dec2", "sread_dec30"), ("cread_dec30", "sread_dec9"), ("sread_dec9", "sread_dec30"),
                    ("jwrite_rec", "jwrite_rec_b"), ("cread_rec", "cread_rec_named"), ("cread_rec_named", "cread_rec"),
                    ("sread_rec", "sread_rec_named"), ("jwrite_rec_b", "jwrite_rec"), ("cwrite_rec", "cwrite_rec_deflate"),
